@@ -13,6 +13,7 @@
 package sio
 
 import (
+	"bytes"
 	"context"
 	"encoding/json"
 	"fmt"
@@ -580,6 +581,8 @@ func ResolveSpecSource(ctx context.Context, specSource interface{}) (*crew.SpecS
 		if err != nil {
 			return nil, nil, err
 		}
+		// Leading white space is allowed in either representation.
+		body = bytes.TrimSpace(body)
 		if len(body) == 0 {
 			return nil, nil, fmt.Errorf("empty spec at %s", src.URL)
 		}
